@@ -337,6 +337,10 @@ class OperatorWorld(World):
             # (x -= x raises 'dictionary changed size during iteration' there): not part of the property, not executed
             ctx.outcome(k, "skipped-precondition")
             return V
+        if eb is not None and o == "*" and (len(ea.val) * len(eb.val) > 400 or
+                                            (ea.kind in FERMI and max([len(t) for t in ea.val] + [0]) + max([len(t) for t in eb.val] + [0]) > 16)):
+            ctx.outcome(k, "skipped-too-large")      # keep operators small: products of unnormalised fermionic words grow without bound
+            return V
         exc, res, expect, exp_val = None, None, "ok", None
         fam_q = ea.kind in QUBIT
         mul = M.qmul if fam_q else M.fmul
@@ -430,8 +434,8 @@ class OperatorWorld(World):
                 if exp_val is not None and hasattr(res, "terms"):
                     ctx.check("C16.value")
                     got = sut_value(res)
-                    if not M.close(got, exp_val):
-                        V.append(Violation("C16", "wrong-value", site, {"diff": M.diff(got, exp_val), "op": op}))
+                    if not M.close(got, exp_val, self._tol(exp_val)):
+                        V.append(Violation("C16", "wrong-value", site, {"diff": M.diff(got, exp_val, self._tol(exp_val)), "op": op}))
         ctx.ev("outcome", k, site, type(exc).__name__ if exc is not None else "ok")
 
         # every pool object must still equal its model (in-place ops: exactly the left operand changes)
@@ -440,7 +444,7 @@ class OperatorWorld(World):
                 continue
             ctx.check("C16.operand")
             cur = sut_value(e.obj)
-            if not M.close(cur, e.val) or sut_attrs(e) != norm_attrs(e):
+            if not M.close(cur, e.val, self._tol(e.val)) or sut_attrs(e) != norm_attrs(e):
                 role = "left" if e is ea else "right" if e is eb else "bystander"
                 if ea is eb and e is ea:
                     role = "both"
@@ -457,21 +461,23 @@ class OperatorWorld(World):
                     ctx.probe("C16.inplace_returned_new_object")
                 # the left operand now carries the new value
                 got = sut_value(ea.obj)
-                if ea is eb and k == "ibin":
-                    pass
-                if not M.close(got, exp_val):
+                if not M.close(got, exp_val, self._tol(exp_val)):
                     if not any(v.kind == "wrong-value" for v in V):
-                        V.append(Violation("C16", "wrong-value", site, {"diff": M.diff(got, exp_val), "op": op}))
+                        V.append(Violation("C16", "wrong-value", site, {"diff": M.diff(got, exp_val, self._tol(exp_val)), "op": op}))
                     ea.obj.terms = dict(exp_val)
-                ea.val = exp_val
+                # the model continues from the value the object actually holds (openfermion drops terms below 1e-8 after an
+                # addition): discrepancies within tolerance must not be amplified by later products
+                ea.val = sut_value(ea.obj)
             elif hasattr(res, "terms"):
                 rk = kind_of(res)
                 if rk is not None:
-                    e = Entry(res, rk, exp_val, None)
+                    e = Entry(res, rk, (sut_value(res) if M.close(sut_value(res), exp_val, self._tol(exp_val)) else exp_val), None)
                     e.attrs = sut_attrs(e)
                     if e.attrs is not None and all(x is None for x in e.attrs):
                         e.attrs = None
-                    res.terms = dict(exp_val) if not M.close(sut_value(res), exp_val) else res.terms
+                    res.terms = dict(exp_val) if not M.close(sut_value(res), exp_val, self._tol(exp_val)) else res.terms
+                    if max([abs(c) for c in exp_val.values()] + [0.0]) > 1e4 or len(exp_val) > 60:
+                        return V          # not reused as an operand: keeps magnitudes and sizes bounded along the chain
                     self.pool.append(e)
                     if len(self.pool) > POOL_CAP:
                         self.pool.pop(0)
@@ -479,10 +485,20 @@ class OperatorWorld(World):
                         ctx.probe("C16.chain_length>=3")
         return V
 
+    @staticmethod
+    def _tol(val):
+        """Comparison tolerance: openfermion deletes terms below 1e-8 after an addition, and round-off scales with the
+        magnitude of the coefficients involved (M.close applies it relative to max(1, |coefficient|))."""
+        scale = max([abs(c) for c in val.values()] + [1.0])
+        return 2e-8 + 1e-10 * scale
+
     def _apply_eq(self, op, ea, eb):
         ctx, V = self.ctx, []
         exp = None
-        same_val = M.close(ea.val, eb.val)
+        same_val = M.close(ea.val, eb.val, 1e-12)
+        if not same_val and M.close(ea.val, eb.val, 1e-5):
+            ctx.outcome("eq", "skipped-near-tolerance")     # values within the comparison tolerance band of openfermion: not judged
+            return V
         if ea.kind == "TF" and eb.kind == "TF":
             exp = same_val and (ea.attrs or [None] * 3) == (eb.attrs or [None] * 3)
         elif ea.kind == "QH" and eb.kind in ("QH", "TQ"):
